@@ -54,6 +54,7 @@ def run(ctx):
     rule_total(ctx, F)
     rule_po(ctx, F)
     rule_ident(ctx, F)
+    rule_mixed(ctx, F)
     import c03
     c03.rule_flag(ctx, F)   # representation independence needs a truthful `compressed` flag (as_flat_slice fast paths)
 
@@ -859,3 +860,32 @@ def rule_ident(ctx, F):
                    "interchangeable in sets, maps and deduplication)" % (adt.split("::")[-1], f["name"]),
                    where="%s:%d" % (impls[0]["file"], impls[0]["line"]) if impls else "",
                    nontrivial=f["name"] not in used, detail=("audited: " + why) if why and f["name"] not in used else None)
+
+
+# ---------------------------------------------------------------------------
+# mixed-variant arm of an enum comparison
+# ---------------------------------------------------------------------------
+
+def rule_mixed(ctx, F):
+    """The record-data enums compare two values of *different* variants by their record types.  That is injective only while
+    every variant has a type of its own; the `Unknown` variant carries its type as data, so `Unknown(A, ..)` and `A(..)` have
+    equal types: if the arm returns the bare type comparison, `cmp` says Equal for two values `==` calls different (sorted
+    containers treat the second as a duplicate).  The arm has to break the tie."""
+    R = "C04.mixed"
+    ctx.floor(R, 6)
+    for p, b in sorted(F.bodies.items()):
+        m = re.match(r"^<(rdata::\w+RecordData)<.*> as (core::cmp::Ord|core::cmp::PartialOrd<.*>|base::cmp::CanonicalOrd<.*>)>::(cmp|partial_cmp|canonical_cmp)$", p)
+        if not m or "::test" in p:
+            continue
+        adt, meth = m.group(1), m.group(3)
+        # is the type of some variant data?  (rtype() has a non-constant arm)
+        rb = [bb for pp, bb in F.bodies.items() if re.match(r"^<%s<.*> as base::rdata::RecordData>::rtype$" % re.escape(adt), pp)]
+        if len(rb) != 1:
+            ctx.undecided_item(R, p, "no unique RecordData::rtype for %s" % adt)
+            continue
+        data_typed = any(str(r[2]).startswith("call:") for r in return_assignments(rb[0]))
+        bare = [r for r in return_assignments(b) if re.match(r"^call:<base::iana::rtype::Rtype as core::cmp::(Ord|PartialOrd)>::(cmp|partial_cmp)$", str(r[2]))]
+        ctx.ob(R, b, "values of different variants never compare Equal", not (data_typed and bare),
+               "%s::%s answers the bare comparison of the two record types for values of different variants, and the type of "
+               "the Unknown variant is data: Unknown(TYPE1, c0000201) and A(192.0.2.1) are `Equal` although `==` says they "
+               "differ (a sorted record collection drops one of them as a duplicate)" % (adt.split("::")[-1], meth))
